@@ -663,3 +663,14 @@
             Err(_) => assert!(false),
         }
     }
+
+    // @harness ids=C09,C01 tier=quick kind=bounded bound="three concrete strings (ASCII, 2-byte and 3-byte UTF-8 sequences)" units=app::file::byte_length timeout=300 note="length fields of file objects count BYTES, not characters: concrete non-ASCII names (kept concrete so that a character-counting implementation fails fast instead of timing out on symbolic UTF-8 decoding)"
+    #[kani::proof]
+    #[kani::unwind(8)]
+    fn vk_c09_file_byte_length_concrete() {
+        let nondet: bool = kani::any();
+        assert!(matches!(byte_length("ab"), Ok(2)));
+        assert!(matches!(byte_length("\u{e9}"), Ok(2)));
+        assert!(matches!(byte_length("\u{20ac}x"), Ok(4)));
+        kani::cover!(nondet);
+    }
